@@ -13,7 +13,7 @@ TABLES = {
     "coldiff": dict(test="TestTableCollectionDiff", module="CollDiffCheck", env={"quick": {"VERIF_DIFF_LEN": "3"}, "thorough": {"VERIF_DIFF_LEN": "4"}}),
     "gc": dict(test="TestTableGC", module="GCCheck", env={"quick": {"VERIF_GC_NODES": "3"}, "thorough": {"VERIF_GC_NODES": "4"}}),
     "subjects": dict(test="TestTableSubjects", module="SubjectCheck", pkg="gw", env={"quick": {"VERIF_SUBJ_LEN": "3"}, "thorough": {"VERIF_SUBJ_LEN": "4"}}),
-    "origin": dict(test="TestTableOrigin", module="OriginCheck", pkg="gw", env={"quick": {"VERIF_ORIGIN_LEN": "3"}, "thorough": {"VERIF_ORIGIN_LEN": "4"}}),
+    "origin": dict(test="TestTableOrigin", module="OriginCheck", pkg="gw", env={"quick": {"VERIF_ORIGIN_LEN": "3"}, "thorough": {"VERIF_ORIGIN_LEN": "3", "VERIF_ORIGIN_EXT": "1"}}),
     "httpstatus": dict(test="TestTableHTTPStatus", module="HttpStatusCheck", pkg="gw", env={}),
     "render": dict(test="TestTableRender", module="RenderCheck", pkg="gw", env={"quick": {"VERIF_RENDER_FULL": "0"}, "thorough": {"VERIF_RENDER_FULL": "1"}}),
     "wsupgrade": dict(test="TestTableWSUpgrade", module="WSUpgradeCheck", pkg="gw", env={}),
